@@ -343,6 +343,7 @@ def glob_run(sub_a, sub_b, patterns, api_kw):
         old_cwd = os.getcwd()
         try:
             api_kw = dict(api_kw)
+            srv.deny_stat_after_readlink = api_kw.pop('_deny', False)
             fn = sftp.get if api_kw.pop('_get', False) else sftp.mget
             form = api_kw.pop('_dest_form', None)
             dest_arg = dest.encode()
@@ -395,7 +396,11 @@ def glob_worker(job):
                   'get-list-preserve': dict(_get=True, preserve=True),
                   'get-list-dot': dict(_get=True, _dest_form='dot'), 'get-list-dotdot': dict(_get=True, _dest_form='dotdot'),
                   'get-list-slashes': dict(_get=True, _dest_form='slashes'), 'get-list-trailing': dict(_get=True, _dest_form='trailing'),
-                  'mget-dot': dict(_dest_form='dot')}[kwname]
+                  'mget-dot': dict(_dest_form='dot'),
+                  # the server refuses to describe (LSTAT) a link whose target it has just handed out, the caller
+                  # collects errors and goes on: the link exists all the same and later sources meet it
+                  'get-list-preserve-errh-deny': dict(_get=True, preserve=True, error_handler=lambda exc: None, _deny=True),
+                  'mget-preserve-errh-deny': dict(preserve=True, error_handler=lambda exc: None, _deny=True)}[kwname]
             viol = glob_run(sub_a, sub_b, patterns, kw)
             acc.add(core.digest(('glob', sub_a, sub_b, tuple(patterns), kwname)), transitions=4,
                     sample={'remote': {'/dir/a': [sub_a[0].decode('latin1'), sub_a[1]], '/dir/b': [sub_b[0].decode('latin1'), sub_b[1]]},
@@ -418,7 +423,7 @@ def glob_jobs():
             for name_b in (b'n', b'm'):
                 for patterns in ([b'/dir/*/n'], [b'/dir/*/*'], [b'/dir/a/n', b'/dir/b/' + name_b], [b'/dir/a/*', b'/dir/b/*'],
                                  [b'/dir/a/n', b'/dir/a/n'], [b'/dir/a/*', b'/dir/a/n'], [b'/dir/**/n']):
-                    for kwname in ('plain', 'preserve', 'errhandler', 'follow'):
+                    for kwname in ('plain', 'preserve', 'errhandler', 'follow', 'mget-preserve-errh-deny'):
                         cases.append(((b'n', ka), (name_b, kb), patterns, kwname))
             # a source named with a trailing slash (or '/.') is copied INTO the destination: its entries meet what
             # an earlier source left there
@@ -430,7 +435,7 @@ def glob_jobs():
             for patterns in ([b'/dir/a/n', b'/dir/b/'], [b'/dir/a/n', b'/dir/b/.'], [b'/dir/a/*', b'/dir/b/'], [b'/dir/b/', b'/dir/a/n'],
                              [b'/dir/a/', b'/dir/b/'], [b'/dir/a/.', b'/dir/b/.']):
                 for kwname in ('plain', 'preserve', 'get-list', 'get-list-preserve', 'get-list-dot', 'get-list-dotdot', 'get-list-slashes',
-                               'get-list-trailing', 'mget-dot'):
+                               'get-list-trailing', 'mget-dot', 'get-list-preserve-errh-deny', 'mget-preserve-errh-deny'):
                     cases.append(((b'n', ka), (b'n', kb), patterns, kwname))
     return [cases[i::32] for i in range(32)]
 
